@@ -207,7 +207,7 @@ def tlc(module, cfg, workdir, env=None, workers=1, timeout=900, extra=None,
     os.makedirs(meta, exist_ok=True)
     cmd = ["java", "-XX:+UseParallelGC", "-Xmx" + heap, "-cp", TLA_CP,
            "tlc2.TLC", "-workers", str(workers), "-metadir", meta,
-           "-config", cfg, "-nowarning"]
+           "-config", cfg, "-nowarning", "-noGenerateSpecTE"]
     if extra:
         cmd += extra
     cmd.append(module)
